@@ -942,6 +942,80 @@ fn main() {
         out.case(&c, &obs, true, "reader_name");
     }
 
+
+    // ---- T2: the unsigned scanners (u8 / u16 / u32 / Ttl) and Timestamp::scan on raw token text
+    {
+        let maxes: [u64; 4] = [255, 65535, 4294967295, 4294967295];
+        let mut toks: Vec<(usize, Vec<u8>)> = Vec::new();
+        for w in 0..4usize {
+            let m = maxes[w];
+            for v in [0u64, 1, 9, 10, m - 1, m, m + 1, m + 2, 10 * m, 10 * m + 9, (m + 1) / 2, (m + 1) / 2 - 1, 1 << 31, (1 << 31) - 1, 25, 26, 256, 6553, 6554, 429496729, 429496730, u64::MAX] {
+                toks.push((w, v.to_string().into_bytes()));
+            }
+            for t in [&b"000"[..], b"0255", b"00000000000000000001", b"+5", b"-1", b"\"\"", b"\"7\"", b"\"2 5\"", b"25a", b"a", b"\\050", b"1\\0500", b"0x10", b"1_0", b"1.0", b"\xef\xbc\x91", b"99999999999999999999999", b"@", b"\\#"] {
+                toks.push((w, t.to_vec()));
+            }
+        }
+        let n_rand = (if a.thorough { 6000 } else { 600 }) * a.scale as usize;
+        for _ in 0..n_rand {
+            let w = r.below(4) as usize;
+            let t = match r.below(4) {
+                0 => { let v = maxes[w].wrapping_add(r.below(40)).wrapping_sub(20); v.to_string().into_bytes() }
+                1 => { let n = 1 + r.below(12) as usize; (0..n).map(|_| b'0' + r.below(10) as u8).collect() }
+                2 => { let n = 1 + r.below(5) as usize; (0..n).map(|_| *r.pick(b"0123456789+-a\\x")).collect() }
+                _ => r.next().to_string().into_bytes(),
+            };
+            toks.push((w, t));
+        }
+        for (w, t) in toks {
+            idx += 1; if !out.wants(idx) { continue; }
+            let c = format!("uint {} {}", w, hex(&t));
+            out.begin(&c);
+            let mut line = b". 0 IN ".to_vec();
+            match w { 0 => { line.extend(b"CAA "); line.extend(&t); line.extend(b" a \"\"\n"); }
+                      1 => { line.extend(b"MX "); line.extend(&t); line.extend(b" .\n"); }
+                      2 => { line.extend(b"SOA . . "); line.extend(&t); line.extend(b" 0 0 0 0\n"); }
+                      _ => { line.extend(b"SOA . . 0 "); line.extend(&t); line.extend(b" 0 0 0\n"); } }
+            let obs = match read_text(&line, None) {
+                Err(_) => "Panic".to_string(),
+                Ok(Err(_)) => "Err".to_string(),
+                Ok(Ok(v)) if v.len() == 1 => match v[0].data() {
+                    ZoneRecordData::Caa(x) if w == 0 => format!("Ok {}", x.flags().bits()),
+                    ZoneRecordData::Mx(x) if w == 1 => format!("Ok {}", x.preference()),
+                    ZoneRecordData::Soa(x) if w == 2 => format!("Ok {}", x.serial().into_int()),
+                    ZoneRecordData::Soa(x) if w == 3 => format!("Ok {}", x.refresh().as_secs()),
+                    _ => "Err".to_string() },
+                Ok(Ok(_)) => "Err".to_string(),
+            };
+            out.case(&c, &obs, true, "reader_uint");
+        }
+        // signature times: decimal and YYYYMMDDHHmmSS
+        let mut ts: Vec<Vec<u8>> = [&b"0"[..], b"4294967295", b"4294967296", b"+1", b"0000000001", b"00000000001", b"19700101000000", b"19700101000001",
+            b"20380119031407", b"20380119031408", b"21060207062815", b"21060207062816", b"20240229235959", b"20230229000000", b"21000229000000",
+            b"20000229000000", b"20241301000000", b"20240001000000", b"20240100000000", b"20240132000000", b"20240431000000", b"20240101240000",
+            b"20240101006000", b"99991231235959", b"00010101000000", b"2024010100000", b"202401010000000", b"2024010100000a", b"\"20240101000000\"",
+            b"19691231235959", b"99991230220000", b"99991230220001", b"99991230215959", b"00000101000000", b"123456789012", b"1234567890123"].iter().map(|x| x.to_vec()).collect();
+        let n_ts = (if a.thorough { 4000 } else { 500 }) * a.scale as usize;
+        for _ in 0..n_ts {
+            let y = match r.below(4) { 0 => 1970 + r.below(140), 1 => 1 + r.below(9999), _ => 2000 + r.below(60) };
+            let mo = 1 + r.below(12); let d = 1 + r.below(31); let h = r.below(24); let mi = r.below(60); let se = r.below(60);
+            ts.push(format!("{:04}{:02}{:02}{:02}{:02}{:02}", y, mo, d, h, mi, se).into_bytes());
+        }
+        for t in ts {
+            idx += 1; if !out.wants(idx) { continue; }
+            let c = format!("ts {}", hex(&t));
+            out.begin(&c);
+            let mut line = b". 0 IN RRSIG A 8 0 0 ".to_vec(); line.extend(&t); line.extend(b" 0 0 . AA==\n");
+            let obs = match read_text(&line, None) {
+                Err(_) => "Panic".to_string(),
+                Ok(Err(_)) => "Err".to_string(),
+                Ok(Ok(v)) if v.len() == 1 => match v[0].data() { ZoneRecordData::Rrsig(x) => format!("Ok {}", x.expiration().into_int()), _ => "Err".to_string() },
+                Ok(Ok(_)) => "Err".to_string(),
+            };
+            out.case(&c, &obs, t.len() == 14, "reader_timestamp");
+        }
+    }
+
     // ---- T2: regular record types field by field (`rec`): the model renders the record with the
     //      schema T1 read off the type's ZonefileFmt / scan impls
     let n_rec = (if a.thorough { 400 } else { 40 }) * a.scale as usize;
